@@ -141,4 +141,30 @@ def lstep (w : WB) : LOp → WB
 
 def lrun (w : WB) (ops : List LOp) : WB := ops.foldl lstep w
 
+/-! ## the record length an EBCDIC sheet works with (`COBOL_EBCDIC_Sheet.set_schema`)
+
+The workbook carries the `lrecl` argument of its constructor (absent or 0 = not given; `if wb.lrecl:`).  Each `set_schema` on any
+sheet of the workbook stores the length the SHEET works with: the given one, else the end of the layout just bound.  The
+workbook itself is not written. -/
+
+structure EFile where
+  lrecl : Option Nat
+deriving Repr, DecidableEq
+
+def EFile.given (f : EFile) : Option Nat :=
+  match f.lrecl with
+  | some n => if n = 0 then none else some n
+  | none => none
+
+/-- one `set_schema(schema)` whose layout ends at `layoutLen`: the workbook afterwards and the sheet's `lrecl` -/
+def EFile.setSchema (f : EFile) (layoutLen : Nat) : EFile × Nat := (f, f.given.getD layoutLen)
+
+/-- a history of `set_schema` calls (on the same sheet or on new sheets of the workbook): each call's sheet `lrecl` -/
+def EFile.run (f : EFile) : List Nat → EFile × List Nat
+  | [] => (f, [])
+  | l :: ls =>
+    let (f1, x) := f.setSchema l
+    let (f2, xs) := f1.run ls
+    (f2, x :: xs)
+
 end Stingray.Facade
